@@ -263,15 +263,28 @@ def go_test(pkg, run, harness_files, *, env=None, tags="verif", timeout=900, rac
     if env:
         e.update({k: str(v) for k, v in env.items()})
     t0 = time.time()
-    try:
-        p = subprocess.run(cmd, cwd=REPO, env=e, stdout=subprocess.PIPE, stderr=subprocess.STDOUT,
-                           timeout=timeout + 120, text=True, errors="replace")
-        return p.returncode, p.stdout, time.time() - t0
-    except subprocess.TimeoutExpired as ex:
-        out = ex.stdout or ""
-        if isinstance(out, bytes):
-            out = out.decode(errors="replace")
-        return 124, out + "\n[verif] go test timed out", time.time() - t0
+    # The test binary is a grandchild: run everything in its own process group so that a timeout kills the binary too
+    # (a synctest bubble can, rarely, spin inside the go1.25.0 runtime and then ignores -test.timeout). One retry: the
+    # spin does not depend on the code under test.
+    import signal
+    out = ""
+    for attempt in range(2):
+        p = subprocess.Popen(cmd, cwd=REPO, env=e, stdout=subprocess.PIPE, stderr=subprocess.STDOUT, text=True,
+                             errors="replace", start_new_session=True)
+        try:
+            out, _ = p.communicate(timeout=timeout + 120)
+            return p.returncode, out, time.time() - t0
+        except subprocess.TimeoutExpired:
+            try:
+                os.killpg(p.pid, signal.SIGKILL)
+            except ProcessLookupError:
+                pass
+            try:
+                out, _ = p.communicate(timeout=30)
+            except Exception:
+                out = ""
+            out = (out or "") + "\n[verif] go test timed out (attempt %d), process group killed" % (attempt + 1)
+    return 124, out, time.time() - t0
 
 
 def go_must_build(rc, out, what):
